@@ -54,6 +54,9 @@ type RemoteParams struct {
 	PlainHTTP bool       `json:"plain_http,omitempty"`
 	SkipGC    bool       `json:"skip_referrers_gc,omitempty"`
 	Fault     *NetFault  `json:"fault,omitempty"`
+	// FaultPick: when set (and Fault is nil) the fault is placed on the FaultPick-th exchange (modulo)
+	// of a fault-free run of the same history, and Fault is filled in
+	FaultPick []uint64 `json:"fault_pick,omitempty"`
 }
 
 type remoteProp struct {
@@ -179,18 +182,8 @@ func (p *remoteProp) Gen(r *Rand, tier string, idx int) any {
 		}
 		rp.Ops = append(rp.Ops, op)
 	}
-	if r.Chance(0.4) {
-		rp.Fault = &NetFault{
-			Class:  pick(r, []string{"manifest", "blob", "upload-put", "upload-start", "manifest", "blob"}),
-			Method: pick(r, []string{"", "GET", "HEAD", "PUT", "DELETE"}),
-			Occur:  r.Range(1, 4),
-			Kind:   pick(r, []string{"digest-header", "digest-header", "content-length", "content-type", "truncate-body", "flip-body"}),
-		}
-		if r.Chance(0.25) {
-			// an exchange that simply fails (the operation may be retried by the history)
-			rp.Fault.Class, rp.Fault.Method = "blob", "GET"
-			rp.Fault.Kind = pick(r, []string{"status-500", "transport"})
-		}
+	if r.Chance(0.45) {
+		rp.FaultPick = []uint64{r.U64(), r.U64()}
 	}
 	return rp
 }
@@ -236,10 +229,73 @@ func (p *remoteProp) Run(rc *RunCtx, sc *Scenario) *RunInfo {
 		return info
 	}
 	var v *Verdict
-	rc.Bubble(func() { v = p.run(rc, &rp, info) })
+	rc.Bubble(func() {
+		if rp.Fault == nil && len(rp.FaultPick) == 2 {
+			p.placeFault(rc, &rp)
+			sc.Params, _ = json.Marshal(rp)
+		}
+		v = p.run(rc, &rp, info)
+	})
 	info.V = v
 	return info
 }
+
+// placeFault runs the history fault-free on a scratch registry, picks one of the
+// exchanges it performed and a fault kind that suits it.
+func (p *remoteProp) placeFault(rc *RunCtx, rp *RemoteParams) {
+	g := rp.Graph.Build()
+	reg := NewSimRegistry(simHost, rp.Profile)
+	reg.Known[simRepo], reg.Known[simOther] = true, true
+	preloadRegistry(reg, g, simRepo, rp.Preload)
+	preloadRegistry(reg, g, simOther, rp.PreOther)
+	repo, err := remote.NewRepository(simPrefix)
+	if err != nil {
+		return
+	}
+	repo.Client = &http.Client{Transport: reg}
+	repo.PlainHTTP, repo.SkipReferrersGC = rp.PlainHTTP, rp.SkipGC
+	scratch := &remoteProp{uncertain: map[string]bool{}}
+	n := 0
+	simrt.Run(rc.ScratchConfig(), func() {
+		for i, op := range rp.Ops {
+			scratch.step(context.Background(), &RunCtx{}, rp, g, reg, repo, i, op, &n, func() (bool, []ReqRecord) { return false, nil })
+		}
+	})
+	all := reg.Requests()
+	var reqs []ReqRecord
+	for _, rq := range all {
+		// the referrers endpoints are C14's and C15's subject; a failed or tampered capability probe
+		// legitimately changes how the client behaves afterwards
+		if rq.Class == "manifest" || rq.Class == "blob" || rq.Class == "upload-start" || rq.Class == "upload-put" {
+			reqs = append(reqs, rq)
+		}
+	}
+	lastPick = [2]uint64{rp.FaultPick[0], rp.FaultPick[1]}
+	rp.FaultPick = nil
+	if len(reqs) == 0 {
+		return
+	}
+	k := int(rp0(rp, 0) % uint64(len(reqs)))
+	rq := reqs[k]
+	occur := 0
+	for _, x := range all {
+		if x.Class == rq.Class && x.Method == rq.Method {
+			occur++
+		}
+		if x.N == rq.N {
+			break
+		}
+	}
+	kinds := []string{"status-500", "transport"}
+	if rq.Status >= 200 && rq.Status <= 299 && (rq.Method == "GET" || rq.Method == "HEAD") {
+		kinds = []string{"digest-header", "digest-header", "content-length", "content-type", "truncate-body", "flip-body", "flip-body", "status-500", "transport"}
+	}
+	rp.Fault = &NetFault{Class: rq.Class, Method: rq.Method, Occur: occur, Kind: kinds[rp0(rp, 1)%uint64(len(kinds))]}
+}
+
+var lastPick [2]uint64
+
+func rp0(rp *RemoteParams, i int) uint64 { return lastPick[i] }
 
 func regHas(reg *SimRegistry, repo string, n *Node) bool {
 	if n.IsManif {
